@@ -26,6 +26,7 @@ REPO = os.environ.get('PYX12_REPO', '/repo')
 TLA_JAR = '/opt/veriftools/tla/tla2tools.jar'
 TLA_CP = TLA_JAR + ':/opt/veriftools/tla/CommunityModules-deps.jar'
 NCPU = os.cpu_count() or 4
+MAXV = int(os.environ.get('VERIF_MAXVIOL', '8'))     # violations listed / replay files written per run
 
 
 class MachineryError(Exception):
@@ -332,7 +333,7 @@ class Check(object):
                     continue
                 seen.add(skey)
                 nviol += 1
-                if nviol > 8:
+                if nviol > MAXV:
                     continue
                 h = hashlib.sha1(skey.encode()).hexdigest()[:12]
                 path = os.path.join(rdir, h + '.json')
@@ -340,8 +341,8 @@ class Check(object):
                     json.dump({'property': self.pid, 'signature': sig, 'description': desc, 'replay': replay}, f, indent=1, default=str)
                 print('VIOLATION property=%s replay=%s' % (self.pid, path))
                 print('  ' + desc[:400].replace('\n', ' '))
-        if nviol > 8:
-            print('... %d further distinct violation signatures not listed' % (nviol - 8))
+        if nviol > MAXV:
+            print('... %d further distinct violation signatures not listed' % (nviol - MAXV))
         dn = self.distinct_count + len(self.distinct)
         cov = {
             'states': self.states,
